@@ -304,7 +304,7 @@ def distinct_count(items):
 
 
 def run_section(rep, name, cases, line_fn, impl_fn, oracle_fn=None, nontrivial_fn=None, rule='', kind_fn=None,
-                sample_fn=None):
+                sample_fn=None, skip_fn=None):
     """One correspondence section.  cases: JSON-able objects.  line_fn(case) -> protocol line for the Lean
     driver; impl_fn(case) -> canonical answer computed by the real code; oracle_fn(case, impl_answer) ->
     None | (signature, description): the property stated directly on the implementation's answer
@@ -320,6 +320,9 @@ def run_section(rep, name, cases, line_fn, impl_fn, oracle_fn=None, nontrivial_f
         except Exception as e:  # the harness itself must not die on an implementation exception
             got = 'err ' + err_name(e)
         sec['cases'] += 1
+        if skip_fn and skip_fn(m):          # the model declares the input outside its domain: counted, not compared
+            sec['dist']['skipped-unmodelled'] = sec['dist'].get('skipped-unmodelled', 0) + 1
+            continue
         if kind_fn:
             k = kind_fn(c, got)
             sec['dist'][k] = sec['dist'].get(k, 0) + 1
